@@ -78,6 +78,7 @@ type counters struct {
 	aggCalls  map[core.Duty]int // target's SigAgg.Aggregate invoked for the duty: reaches aggregation
 	aggOut    map[core.Duty]int // target's extra SigAgg subscriber: aggregate produced for the duty
 	bcast     map[core.Duty]int // any node's broadcaster got a signed object of the duty
+	entries   map[core.Duty]int // entries of sets seen at the target's two admission boundaries (ParSigEx / ValidatorAPI subscribers)
 }
 
 type violation struct{ tag, sig, detail string }
@@ -95,8 +96,11 @@ type env struct {
 	maxDly int
 	noise  bool
 
-	mu     sync.Mutex
-	cnt    counters
+	pkOf map[tbls.PrivateKey]tbls.PublicKey // harness-private cache
+
+	mu       sync.Mutex
+	signedBy map[eth2p0.BLSSignature]tbls.PublicKey // every signature the harness produced -> the key that produced it
+	cnt      counters
 	viol   []violation
 	noises []noiseRec
 	matrix map[string][]string
@@ -154,7 +158,7 @@ func (e *env) snapshot() counters {
 		return o
 	}
 	s.exSub, s.storedExt = cp(e.cnt.exSub), cp(e.cnt.storedExt)
-	s.aggCalls, s.aggOut, s.bcast = cp(e.cnt.aggCalls), cp(e.cnt.aggOut), cp(e.cnt.bcast)
+	s.aggCalls, s.aggOut, s.bcast, s.entries = cp(e.cnt.aggCalls), cp(e.cnt.aggOut), cp(e.cnt.bcast), cp(e.cnt.entries)
 	return s
 }
 
@@ -233,7 +237,8 @@ func body(c *kernel.Ctx) {
 	cl := cluster.New(ctx, c.T, cfg)
 	e := &env{c: c, cl: cl, ctx: ctx, used: map[core.Duty]bool{}, matrix: map[string][]string{}, stats: map[string]int{}}
 	e.cnt.exSub, e.cnt.storedExt = map[core.Duty]int{}, map[core.Duty]int{}
-	e.cnt.aggCalls, e.cnt.aggOut, e.cnt.bcast = map[core.Duty]int{}, map[core.Duty]int{}, map[core.Duty]int{}
+	e.cnt.aggCalls, e.cnt.aggOut, e.cnt.bcast, e.cnt.entries = map[core.Duty]int{}, map[core.Duty]int{}, map[core.Duty]int{}, map[core.Duty]int{}
+	e.pkOf, e.signedBy = map[tbls.PrivateKey]tbls.PublicKey{}, map[eth2p0.BLSSignature]tbls.PublicKey{}
 	e.target = verifrt.Intn("cfg", n)
 	e.maxDly = 1 + verifrt.Intn("cfg", 200)
 	e.noise = verifrt.Intn("cfg", 3) != 0
@@ -274,13 +279,15 @@ func body(c *kernel.Ctx) {
 		}
 		e.tn = nd
 		// extra subscribers, registered before any traffic
-		nd.ParSigEx.Subscribe(func(_ context.Context, d core.Duty, _ core.ParSignedDataSet) error {
+		nd.ParSigEx.Subscribe(func(_ context.Context, d core.Duty, set core.ParSignedDataSet) error {
+			e.checkAdmitted("peer", d, set)
 			e.mu.Lock()
 			e.cnt.exSub[d]++
 			e.mu.Unlock()
 			return nil
 		})
-		nd.VAPI.Subscribe(func(context.Context, core.Duty, core.ParSignedDataSet) error {
+		nd.VAPI.Subscribe(func(_ context.Context, d core.Duty, set core.ParSignedDataSet) error {
+			e.checkAdmitted("vc", d, set)
 			e.mu.Lock()
 			e.cnt.vapiSub++
 			e.mu.Unlock()
